@@ -2,15 +2,17 @@
 # tools/try_seed.sh <dir with patch.diff + demo.py> <property id> [tier]
 # Applies the seeded change in a scratch worktree, runs the demo on both trees and the property's check on the
 # changed tree. Prints a one-line summary. Removes the worktree afterwards.
-D="$1"; PID="$2"; TIER="${3:-quick}"
+D="$1"; PID="$2"; TIER="${3:-quick}"; TESTS="$4"
 WT="/tmp/try-seed-$$"
 git -C /repo worktree add -q --detach "$WT" HEAD || exit 2
 if ! git -C "$WT" apply "$D/patch.diff"; then echo "PATCH DOES NOT APPLY"; git -C /repo worktree remove --force "$WT"; exit 2; fi
 ( cd "$D" && env -u AGILERL_VERIF PYTHONPATH="$WT" timeout 600 /venv/bin/python demo.py >/tmp/try-seed-demo-changed.$$ 2>&1 ); RC_CH=$?
 ( cd "$D" && env -u AGILERL_VERIF PYTHONPATH=/repo timeout 600 /venv/bin/python demo.py >/tmp/try-seed-demo-orig.$$ 2>&1 ); RC_OR=$?
-cd /verif && VERIF_REPO="$WT" ./check "$PID" --tier "$TIER" > /tmp/try-seed-check.$$ 2>&1; RC_CK=$?
-echo "seed=$D property=$PID demo(changed)=$RC_CH demo(orig)=$RC_OR check=$RC_CK"
+cd /verif && VERIF_EVIDENCE_DIR="/tmp/try-seed-evid-$$" VERIF_REPO="$WT" ./check "$PID" --tier "$TIER" > /tmp/try-seed-check.$$ 2>&1; RC_CK=$?
+TST="-"
+if [ -n "$TESTS" ]; then TST=$(BASELINE_REPO="$WT" python3 /verif/tools/run_baseline.py --stable-only $TESTS 2>&1 | tail -1 | tr ' ' '_'); fi
+echo "seed=$D property=$PID demo(changed)=$RC_CH demo(orig)=$RC_OR check=$RC_CK tests=$TST"
 grep "signature:" /tmp/try-seed-check.$$ | sort | uniq -c | head -8
 grep "MACHINERY" /tmp/try-seed-check.$$ | head -3
 git -C /repo worktree remove --force "$WT"
-rm -f /tmp/try-seed-demo-changed.$$ /tmp/try-seed-demo-orig.$$ /tmp/try-seed-check.$$
+rm -rf /tmp/try-seed-evid-$$; rm -f /tmp/try-seed-demo-changed.$$ /tmp/try-seed-demo-orig.$$ /tmp/try-seed-check.$$
